@@ -3,6 +3,7 @@ Reads JSON lines {target, args, kwargs, globals, self} on stdin, calls the
 *real* function, prints one JSON line per call with the observed outcome.
 No z3 here."""
 import importlib
+import os
 import json
 import signal
 import sys
@@ -46,6 +47,10 @@ def run_one(job):
         mod = importlib.import_module(modname)
         saved.append((mod, var, getattr(mod, var)))
         setattr(mod, var, values.decode(val))
+    if job.get('tz'):
+        saved_tz = os.environ.get('TZ')
+        os.environ['TZ'] = job['tz']
+        time.tzset()
     steps = [0]
 
     def tracer(frame, event, arg):
@@ -83,8 +88,49 @@ def run_one(job):
     finally:
         for mod, var, old in saved:
             setattr(mod, var, old)
+        if job.get('tz'):
+            if saved_tz is None:
+                os.environ.pop('TZ', None)
+            else:
+                os.environ['TZ'] = saved_tz
+            time.tzset()
     out['steps'] = steps[0]
     return out
+
+
+def run_safely(job):
+    try:
+        return run_one(job)
+    except Exception as exc:  # harness failure, not the code's
+        return {'outcome': 'harness-error', 'error': repr(exc)}
+
+
+def run_isolated(job):
+    """In a forked child: the package is imported, but no call of this session has run in it (a 'fresh interpreter'
+    as far as the library's own state goes).  job['sequence']: several calls in the same child."""
+    r, w = os.pipe()
+    pid = os.fork()
+    if pid == 0:
+        os.close(r)
+        try:
+            if 'sequence' in job:
+                out = {'outcome': 'sequence', 'results': [run_safely(j) for j in job['sequence']]}
+            else:
+                out = run_safely(job)
+            data = json.dumps(out).encode()
+        except BaseException as exc:
+            data = json.dumps({'outcome': 'harness-error', 'error': repr(exc)}).encode()
+        with os.fdopen(w, 'wb') as fh:
+            fh.write(data)
+        os._exit(0)
+    os.close(w)
+    with os.fdopen(r, 'rb') as fh:
+        data = fh.read()
+    os.waitpid(pid, 0)
+    try:
+        return json.loads(data.decode())
+    except ValueError:
+        return {'outcome': 'runner-died', 'stderr': 'isolated child gave no result'}
 
 
 def main():
@@ -93,10 +139,10 @@ def main():
         if not line:
             continue
         job = json.loads(line)
-        try:
-            out = run_one(job)
-        except Exception as exc:  # harness failure, not the code's
-            out = {'outcome': 'harness-error', 'error': repr(exc)}
+        if job.get('isolate'):
+            out = run_isolated(job)
+        else:
+            out = run_safely(job)
         sys.stdout.write(json.dumps(out) + '\n')
         sys.stdout.flush()
 
